@@ -261,11 +261,14 @@ pub async fn server_pipeline(app: Rc<App>, cfg: &Cfg3, sinks: Rc<RefCell<Vec<v3:
         let sinks = sinks.clone();
         async move {
             app.push(Ev::Handshake);
+            // the application may use the sink while its handshake service is still running
+            if matches!(hs, Hs3::Accept { .. }) {
+                sinks.borrow_mut().push(h.sink());
+            }
             // a slow handshake service (gate closed by the check)
             app.wait(G_HS, 0).await;
             match hs {
                 Hs3::Accept { idle_timeout, max_send, session_present } => {
-                    sinks.borrow_mut().push(h.sink());
                     let mut ack = h.ack((), session_present);
                     if let Some(k) = idle_timeout {
                         ack = ack.idle_timeout(Seconds(k));
